@@ -1208,7 +1208,11 @@ impl<'a> FieldEntry<'a> {
         // since field name change by rust-analyzer is not possible when using `field.ident` span
         //
         // Same problem with `field.span()`, since it is the same as `field.ident` span when `field.vis` is empty.
-        self.field.ty.span()
+        //
+        // Only the location is taken from the field: names are resolved at the macro call site like every other
+        // generated token, otherwise `self`, `__other`, ... written with this span are not the ones declared by the
+        // generated `fn` when the item comes out of a `macro_rules!` macro (a different hygiene context).
+        self.field.ty.span().resolved_at(Span::call_site())
     }
 
     fn member(&self) -> TokenStream {
